@@ -77,6 +77,17 @@ def main(tier):
                     r2['violations'].append(v)
         r2['cover'] = {'pairing paths': r.get('paths', 0)}
         agg.add(r2)
+    # (d) the walk over the syntax tree: no panic, ends, and its call nesting does not grow with the
+    # nesting depth of the source (a recursive walk overflows the stack on deeply nested input)
+    from . import treewalk
+    for r in treewalk.run_all(tier):
+        r2 = dict(r)
+        r2['violations'] = [v for v in r.get('violations', []) if v['role'] in ('tree-walk-panic', 'walk-depth-grows-with-nesting')]
+        for v in r2['violations']:
+            treewalk.confirm_walk(binary, PROP, v, 0)
+        c = dict(r.get('cover', {}))
+        r2['cover'] = {'tree walk paths': r.get('paths', 0), 'stack depth': c.get('stack depth', 0)}
+        agg.add(r2)
     # confirm normaliser panics on the real binary, one per (closure, message)
     groups = {}
     for p in panics:
@@ -117,10 +128,10 @@ def main(tier):
         agg, bounds,
         assumptions=['ASCII comment text over per-form alphabets containing every delimiter byte, newline, space, a letter and <',
                      'node contract: only the opening delimiter of the comment form is assumed',
-                     'tree-sitter and its generated parsers (C behind FFI), unidiff\'s text parser, clap and the OS are outside',
+                     'tree-sitter and its generated parsers (C behind FFI), unidiff\'s text parser, clap and the OS are outside; the crate\'s own walk over the syntax tree runs on model trees (every shape up to 5-6 nodes, chains of depth 8 and 40)',
                      'a reachable panic is reported only when a file of a language routed to that normaliser crashes the real binary'],
         stubs=['tree_sitter::Node (kind + byte range model)', 'similar::TextDiff via the line_diff stub', 'WinnowBlockTagParser::next (event list)'],
-        must_cover=['normalised', 'diff-side paths', 'pairing paths'],
+        must_cover=['normalised', 'diff-side paths', 'pairing paths', 'tree walk paths', 'stack depth'],
         explanation='every path of every normaliser closure for every comment text within the bound; panic outcomes are first-class path results',
         extra=dict(unconfirmed_panic_texts=unconfirmed[:20]))
 
